@@ -39,6 +39,12 @@
 #include "verif_post.h"
 #include "rule_stubs.h"
 #include "policy.c"
+/* secondary witness points are only compiled in the thorough tier (-DWITNESS_ALL): every witness costs a solver call plus a full trace */
+#ifdef WITNESS_ALL
+#define WITNESS_EXTRA(msg) WITNESS_POINT(msg)
+#else
+#define WITNESS_EXTRA(msg) ((void)0)
+#endif
 
 #define P_CAL 0
 #define P_KEY 1
@@ -417,18 +423,18 @@ void harness(void) {
 	if (final_ok && userPubPtr && hasPub && up_timeEq) WITNESS_POINT("user publication equals the signature publication: OK");
 	if (final_ok && userPubPtr && !hasPub) WITNESS_POINT("extended to user publication: OK");
 	if (final_fail && ec == KSI_VER_ERR_PUB_4) WITNESS_POINT("user publication hash differs: PUB-04");
-	if (final_fail && ec == KSI_VER_ERR_PUB_2 && userPubPtr) WITNESS_POINT("extender reply inconsistent with user publication: PUB-02");
+	if (final_fail && ec == KSI_VER_ERR_PUB_2 && userPubPtr) WITNESS_EXTRA("extender reply inconsistent with user publication: PUB-02");
 	if (final_na && userPubComplete && internal_ok && !extAllowed && !hasPub) WITNESS_POINT("extending to user publication not allowed: NA");
-	if (res != KSI_OK && n_flag == 0 && i_unc == 0 && upx == 2) WITNESS_POINT("extender failure: error status");
+	if (res != KSI_OK && n_flag == 0 && i_unc == 0 && upx == 2) WITNESS_EXTRA("extender failure: error status");
 #endif
 #if POLICY == P_PUBFILE
 	if (final_ok && !userPubPtr && hasPub && pf_hasPub) WITNESS_POINT("signature publication found in publications file: OK");
 	if (final_ok && !userPubPtr && !hasPub && pf == 0 && pfx == 0) WITNESS_POINT("extended to publications file publication: OK");
 	if (final_fail && ec == KSI_VER_ERR_PUB_5) WITNESS_POINT("publications file has another hash for that time: PUB-05");
-	if (final_fail && ec == KSI_VER_ERR_PUB_1 && !userPubPtr) WITNESS_POINT("extender root differs from publications file: PUB-01");
-	if (final_fail && ec == KSI_VER_ERR_PUB_3 && !userPubPtr) WITNESS_POINT("extender input hash differs: PUB-03");
+	if (final_fail && ec == KSI_VER_ERR_PUB_1 && !userPubPtr) WITNESS_EXTRA("extender root differs from publications file: PUB-01");
+	if (final_fail && ec == KSI_VER_ERR_PUB_3 && !userPubPtr) WITNESS_EXTRA("extender input hash differs: PUB-03");
 	if (final_na && internal_ok && pf == 0 && !hasPub && pf_suitable && !extAllowed) WITNESS_POINT("extending to publications file not allowed: NA");
-	if (final_na && internal_ok && pf == 0 && !hasPub && pf_suitable && extAllowed && pfx == 1) WITNESS_POINT("extender unavailable: NA");
+	if (final_na && internal_ok && pf == 0 && !hasPub && pf_suitable && extAllowed && pfx == 1) WITNESS_EXTRA("extender unavailable: NA");
 #endif
 #if POLICY == P_KEY
 	if (final_ok && hasAuth && !userPubPtr) WITNESS_POINT("key based: OK");
@@ -440,22 +446,26 @@ void harness(void) {
 	if (res != KSI_OK && n_flag == 0 && i_unc == 0 && internal_ok && chx == 3 && !hasCal) WITNESS_POINT("calendar based, extender reply without chain: error status");
 	if (final_ok && !hasCal) WITNESS_POINT("calendar based, extended to head: OK");
 	if (final_ok && hasCal && hasPub) WITNESS_POINT("calendar based, same root: OK");
-	if (final_ok && hasCal && !hasPub) WITNESS_POINT("calendar based, same right links: OK");
-	if (final_fail && ec == KSI_VER_ERR_CAL_1) WITNESS_POINT("CAL-01");
-	if (final_fail && ec == KSI_VER_ERR_CAL_2) WITNESS_POINT("CAL-02");
-	if (final_fail && ec == KSI_VER_ERR_CAL_3) WITNESS_POINT("CAL-03");
+	if (final_ok && hasCal && !hasPub) WITNESS_EXTRA("calendar based, same right links: OK");
+	if (final_fail && ec == KSI_VER_ERR_CAL_1) WITNESS_EXTRA("CAL-01");
+	if (final_fail && ec == KSI_VER_ERR_CAL_2) WITNESS_EXTRA("CAL-02");
+	if (final_fail && ec == KSI_VER_ERR_CAL_3) WITNESS_EXTRA("CAL-03");
 	if (final_fail && ec == KSI_VER_ERR_CAL_4) WITNESS_POINT("CAL-04");
-	if (final_na && internal_ok && n_flag == 0 && chx == 1 && !hasCal) WITNESS_POINT("calendar based, extender unavailable: NA");
+	if (final_na && internal_ok && n_flag == 0 && chx == 1 && !hasCal) WITNESS_EXTRA("calendar based, extender unavailable: NA");
 #endif
 #if POLICY == P_GENERAL
 	if (final_ok && userPubPtr && hasPub && up_timeEq) WITNESS_POINT("general: user publication equals the signature publication: OK");
 	if (final_fail && ec == KSI_VER_ERR_PUB_5) WITNESS_POINT("general: publications file has another hash for that time: PUB-05");
 	if (final_fail && ec == KSI_VER_ERR_KEY_3 && !userPubPtr) WITNESS_POINT("general: key based KEY-03 after inconclusive publications file");
-	if (final_na && userPubPtr && !userPubComplete && internal_ok) WITNESS_POINT("general: incomplete user publication: NA");
+	if (final_na && userPubPtr && !userPubComplete && internal_ok) WITNESS_EXTRA("general: incomplete user publication: NA");
 	if (final_ok && !userPubPtr && hasAuth && pf == 0 && !pf_suitable) WITNESS_POINT("general: falls through from publications file to key based");
 #endif
+#if POLICY == P_KEY
 	if (!internal_ok && i_unc == 0 && final_fail) WITNESS_POINT("internal contradiction: FAIL");
+#else
+	if (!internal_ok && i_unc == 0 && final_fail) WITNESS_EXTRA("internal contradiction: FAIL");
+#endif
 #if FLAGS
-	if (n_flag > 0 && final_ok) WITNESS_POINT("OK although some unrelated rule could not compute");
+	if (n_flag > 0 && final_ok) WITNESS_EXTRA("OK although some unrelated rule could not compute");
 #endif
 }
